@@ -224,6 +224,12 @@ func graphCheck(env *Env, res *Result, c Case, sub int, val interface{}, feats [
 func (c04) Run(c Case, env *Env) Result {
 	var res Result
 	switch c.Kind {
+	case "lit":
+		if f, ok := literals[c.S]; ok {
+			val, feats := f()
+			res.NTCount++
+			graphCheck(env, &res, c, 0, val, feats, 4)
+		}
 	case "exh":
 		step := int64(1)
 		if c.M > 1 {
